@@ -188,6 +188,28 @@ Integrate(ax, k, qs, h) ==
   /\ q' = QMul(q, AxisQuat(ax, k)) /\ R' = MMul(R, AxisRot(ax, k)) /\ UNCHANGED t
   /\ ev' = [op |-> "integrate", ax |-> AxVec(ax), k |-> k, qs |-> qs, h |-> h, in |-> In,
             ret |-> IF SubTurns(k) # 9 THEN [i \in 1..3 |-> SubTurns(k) * AxVec(ax)[i]] ELSE <<>>]
+\* ---- derivative routines and degenerate argument pairs (identical, negated, scaled arguments) -------------------------
+\* mjd_subQuat(qa, qb) with qa = sa * (q * turn(ax, k)), qb = sb * q, k in {-1, 0, 1}: the relative rotation is k quarter
+\* turns about ax, mju_subQuat gives k * ax, and with K = Skew(k * ax) the Jacobians are
+\*     Da = I + (pi/4) K + (1 - pi/4) K K,   Db = -Da'      (inverse right Jacobian of SO(3) at half angle pi/4)
+\* which at zero relative rotation (k = 0: qa = qb, qa = -qb, scalar multiples) are EXACTLY I and -I
+NegI3 == [x \in 1..9 |-> -I3[x]]
+DSub(ax, k, sa, sb) ==
+  /\ Step("DSub") /\ UNCHANGED <<q, R, t>>
+  /\ LET K == Skew([i \in 1..3 |-> k * AxVec(ax)[i]]) IN
+     ev' = [op |-> "dsub", ax |-> AxVec(ax), k |-> k, sa |-> sa, sb |-> sb, in |-> In,
+            ret |-> [sub |-> [i \in 1..3 |-> k * AxVec(ax)[i]], K |-> K, KK |-> MMulRaw(K, K),
+                     exact |-> IF k = 0 THEN [da |-> I3, db |-> NegI3] ELSE << >>]]
+\* mjd_quatIntegrate(vel, scale) where the scaled velocity vanishes (zero velocity or zero step): Dquat = I, Dvel = I,
+\* Dscale = Dvel vel = vel
+DInt(v, sc) == /\ Step("DInt") /\ (v = <<0, 0, 0>> \/ sc = 0) /\ UNCHANGED <<q, R, t>>
+               /\ ev' = [op |-> "dint", v |-> v, sc |-> sc, in |-> In, ret |-> [dquat |-> I3, dvel |-> I3, dscale |-> v]]
+\* q := q * negQuat(q): the identity
+MulInverse == /\ Step("MulInverse") /\ q' = QMul(q, QConj(q)) /\ R' = MMul(R, MT(R)) /\ UNCHANGED t
+              /\ ev' = [op |-> "mulinv", in |-> In, ret |-> <<>>]
+\* mju_quatIntegrate(qs * q, v, 0): a zero step leaves the (normalised) orientation alone
+IntZero(v, qs) == /\ Step("IntZero") /\ UNCHANGED <<q, R, t>>
+                  /\ ev' = [op |-> "intzero", v |-> v, qs |-> qs, in |-> In, ret |-> <<>>]
 \* q := mju_euler2Quat(k pi/2, seq)
 Euler(sq, ks) == /\ Step("Euler")
                  /\ q' = EulerQuat(sq, ks) /\ R' = EulerMat(sq, ks) /\ UNCHANGED t
@@ -235,8 +257,12 @@ DoIntegrate  == On("Integrate") /\ \E ax \in Axes, a \in IArgs : Integrate(ax, a
 DoEuler      == On("Euler") /\ \E sq \in [1..3 -> Letters], ks \in [1..3 -> ETurns] : Euler(sq, ks)
 DoEulerBad   == On("EulerBad") /\ \E sq \in BadSeqs : EulerBad(sq)
 DoZ2Vec      == On("Z2Vec") /\ \E v \in ZVecs : Z2Vec(v)
+DoDSub       == On("DSub") /\ \E ax \in Axes, k \in {-1, 0, 1}, ss \in {<<1, 1>>, <<1, -1>>, <<3, 1>>, <<-2, 3>>} : DSub(ax, k, ss[1], ss[2])
+DoDInt       == On("DInt") /\ \E v \in {<<0, 0, 0>>, <<1, 2, 3>>}, sc \in {0, 2} : DInt(v, sc)
+DoIntZero    == On("IntZero") /\ \E v \in {<<1, 2, 3>>, <<0, 0, 0>>}, qs \in {1, 3} : IntZero(v, qs)
 DoMulPose    == On("MulPose") /\ \E p \in QArgs, t2 \in TVecs : MulPose(p, t2)
 Next == \/ DoMulQuat \/ DoPreMulQuat \/ DoMulAxis \/ DoSetAxis \/ Neg \/ RoundTrip \/ NegPose
+        \/ DoDSub \/ DoDInt \/ DoIntZero \/ MulInverse
         \/ DoRotVec \/ DoTrnVec \/ DoIntegrate \/ DoEuler \/ DoEulerBad \/ DoZ2Vec \/ DoMulPose
 Spec == Init /\ [][Next]_vars
 
@@ -271,11 +297,15 @@ IntegrateSub == [][(ev'.op = "integrate" /\ ev'.ret # <<>>) =>
                      \* the rotation vector given back by subQuat integrates the old orientation to the new one
                      \E ax \in Axes : \E k \in {-1, 0, 1} :
                         [i \in 1..3 |-> k * AxVec(ax)[i]] = ev'.ret /\ QMul(q, AxisQuat(ax, k)) \in {q', QNegAll(q')}]_vars
+\* at zero relative rotation the Jacobians of subQuat are exactly I and -I, and multiplying by the inverse gives the identity
+ZeroRelExact == (ev.op = "dsub" /\ ev.k = 0) => (ev.ret.exact.da = I3 /\ ev.ret.exact.db = NegI3 /\ ev.ret.sub = <<0, 0, 0>>
+                                                  /\ ev.ret.K = [x \in 1..9 |-> 0])
+InverseGivesId == ev.op = "mulinv" => (q = QId /\ R = I3)
 PoseNegTwice == [][ev'.op = "negpose" => (QConj(q') = q /\ VNeg(MV(MT(R'), t')) = t)]_vars
 
 \* ---- constants for the configurations --------------------------------------------------------------------
 AllOps    == {"MulQuat", "PreMulQuat", "MulAxis", "SetAxis", "Neg", "RoundTrip", "RotVec", "Integrate", "Z2Vec",
-              "MulPose", "NegPose", "TrnVec", "EulerBad"}
+              "MulPose", "NegPose", "TrnVec", "EulerBad", "DSub", "DInt", "IntZero", "MulInverse"}
 GroupOps  == AllOps \cup {"Euler"}
 EulerOps  == {"Euler"}
 NoOps     == {}
